@@ -45,7 +45,7 @@ VARIANTS = {
 # driver name -> (variant, harness sources relative to hwsim/, extra link flags, sources that get SUT instrumentation)
 DRIVERS = {
     "bitmap": dict(variant="asan", src=["core/core.cc", "bitmap/machine_bitmap.cc"], link=[]),
-    "topo": dict(variant="asan", src=["core/core.cc", "topo/dump.cc", "topo/wf.cc", "topo/src.cc", "topo/ops_core.cc", "topo/ops_repl.cc", "topo/ops_aux.cc", "topo/ops_diff.cc", "topo/ops_shm.cc", "topo/battery.cc",
+    "topo": dict(variant="asan", src=["core/core.cc", "topo/dump.cc", "topo/wf.cc", "topo/src.cc", "topo/ops_core.cc", "topo/ops_repl.cc", "topo/ops_aux.cc", "topo/ops_diff.cc", "topo/ops_shm.cc", "topo/battery.cc", "topo/ops_xmlfault.cc",
                                       "topo/machine_topo.cc"], link=[]),
     # C10: hwloc's Linux binding hooks against the kernel model (bind/kmodel.cc); the real kernel is never asked
     "bind": dict(variant="asan", src=["core/core.cc", "bind/kmodel.cc", "bind/machine_bind.cc"],
@@ -114,6 +114,8 @@ def include_flags():
         os.makedirs(fb + "/hwloc/autogen", exist_ok=True)
         shutil.copy("/repo/include/private/autogen/config.h", fb + "/private/autogen/config.h")
         shutil.copy("/repo/include/hwloc/autogen/config.h", fb + "/hwloc/autogen/config.h")
+        if not os.path.exists(REPO + "/hwloc/static-components.h"):
+            shutil.copy("/repo/hwloc/static-components.h", fb + "/static-components.h")
         inc.append("-I" + fb)
     return inc
 
